@@ -477,10 +477,21 @@ func runPart(e *core.Env, proto, stream string, n int) {
 			kind = "e2e" // thorough scales the random kinds 50x, the (expensive, enumerating) cut cases 25x
 		}
 		rec.Begin(proto, i, kind)
-		ok := core.Watchdog(90*time.Second, func() { runCase(e, proto, kind, i, seq, r, cov) })
+		// Each case runs in its own synctest bubble: nothing in the harness waits on real time, the transports never
+		// block a writer and every connection is closed by its owner, so if all goroutines of the exchange end up
+		// blocked for good, a side is waiting for bytes the other one has already sent or will never send.
+		dead := ""
+		ok := core.Watchdog(90*time.Second, func() {
+			dead = core.Bubble(e, func() { runCase(e, proto, kind, i, seq, r, cov) })
+		})
 		if !ok {
 			rec.Inconclusive("watchdog")
 			rec.Eval()
+		}
+		if dead != "" {
+			rec.Eval()
+			rec.Violate(proto, i, core.Sig("kind", "exchange_blocked_for_good", "proto", proto, "case_kind", kind), map[string]any{"runtime": dead},
+				"%s case %d (%s): every goroutine of the handshake/relay exchange is blocked for good: %s", proto, i, kind, dead)
 		}
 	})
 	cov.report(rec, stream)
